@@ -9,6 +9,7 @@ import (
 	"strconv"
 	"strings"
 	"testing/synctest"
+	"time"
 
 	"github.com/gordian-engine/gordian/gcrypto"
 	"github.com/gordian-engine/gordian/tm/tmconsensus"
@@ -102,7 +103,33 @@ func (s *sys) apply(ev string) applied {
 	case "FE":
 		a.result = s.applyFetched(parts[1])
 	case "SME":
-		a.result = s.enter(max(s.sm.h, initialH), s.sm.r)
+		if s.eng != nil {
+			a.result = "n/a:engine-mode"
+		} else {
+			a.result = s.enter(max(s.sm.h, initialH), s.sm.r)
+		}
+	case "SR":
+		ans := ""
+		if len(parts) > 1 {
+			ans = parts[1]
+		}
+		s.eng.step = s.step
+		a.result = s.eng.release(ans)
+	case "TF":
+		s.eng.step = s.step
+		a.result = s.eng.fireTimer()
+	case "DR":
+		s.eng.step = s.step
+		a.result = s.eng.finalize()
+	case "Tick":
+		a.result = s.eng.tick(150 * time.Millisecond)
+	case "BDA":
+		select {
+		case s.eng.bda <- tmelink.BlockDataArrival{Height: s.eng.curH, Round: s.eng.curR, ID: fmt.Sprintf("data-A-%d", s.eng.curH)}:
+			a.result = "sent"
+		default:
+			a.result = "channel-full"
+		}
 	case "SMN":
 		a.result = s.applySMNext(parts[1])
 	case "SMA":
@@ -142,6 +169,13 @@ func (s *sys) apply(ev string) applied {
 }
 
 func (s *sys) restart() string {
+	if s.eng != nil {
+		s.eng.step = s.step
+		r := s.eng.restart()
+		s.rhr = s.eng.rhr
+		s.restarts++
+		return r
+	}
 	s.stop()
 	s.st.f.frozen = false
 	s.st.f.freezeAt = -1
@@ -229,7 +263,7 @@ func (s *sys) applyPH(args []string) string {
 		panic("unknown PH variant " + variant)
 	}
 	return s.call("HandleProposedHeader", func(ctx context.Context) string {
-		return s.m.HandleProposedHeader(ctx, ph).String()
+		return s.handler().HandleProposedHeader(ctx, ph).String()
 	})
 }
 
@@ -248,9 +282,31 @@ func (s *sys) applyVote(args []string) (string, bool) {
 	w := s.w
 	target := s.targetHash(tgtPos, h)
 	var idxs []int
-	if who == "h" {
+	me := localIdx
+	if s.eng != nil {
+		me = w.idxOf(h, s.eng.keyIdx)
+	}
+	var others []int
+	for i := 0; i < byzIdx; i++ {
+		if i != me {
+			others = append(others, i)
+		}
+	}
+	switch who {
+	case "h":
 		idxs = []int{0, 1, 2}
-	} else {
+	case "oh":
+		idxs = others
+	case "o1":
+		idxs = others[:1]
+	case "o2":
+		idxs = others[1:2]
+	case "me":
+		if me < 0 {
+			return "n/a:not-a-validator", false
+		}
+		idxs = []int{me}
+	default:
 		i, _ := strconv.Atoi(who)
 		idxs = []int{i}
 	}
@@ -351,19 +407,19 @@ func (s *sys) applyVote(args []string) (string, bool) {
 	if kind == 'p' {
 		msg := tmconsensus.PrevoteSparseProof{Height: h, Round: r, PubKeyHash: pkh, Proofs: proofs}
 		res = s.call("HandlePrevoteProofs", func(ctx context.Context) string {
-			return s.m.HandlePrevoteProofs(ctx, msg).String()
+			return s.handler().HandlePrevoteProofs(ctx, msg).String()
 		})
 	} else {
 		msg := tmconsensus.PrecommitSparseProof{Height: h, Round: r, PubKeyHash: pkh, Proofs: proofs}
 		res = s.call("HandlePrecommitProofs", func(ctx context.Context) string {
-			return s.m.HandlePrecommitProofs(ctx, msg).String()
+			return s.handler().HandlePrecommitProofs(ctx, msg).String()
 		})
 	}
 	return res, allInvalid
 }
 
 func (s *sys) applyReplay(variant string) string {
-	if s.m == nil {
+	if !s.alive() {
 		return "node-down"
 	}
 	w := s.w
@@ -459,6 +515,9 @@ func (s *sys) applyReplay(variant string) string {
 }
 
 func (s *sys) applyFetched(blk string) string {
+	if s.eng != nil {
+		return "n/a:engine-mode"
+	}
 	if s.m == nil {
 		return "node-down"
 	}
@@ -472,7 +531,7 @@ func (s *sys) applyFetched(blk string) string {
 }
 
 func (s *sys) applySMNext(which string) string {
-	if !s.sm.entered {
+	if s.eng != nil || !s.sm.entered {
 		return "n/a:not-entered"
 	}
 	switch which {
@@ -494,7 +553,7 @@ func (s *sys) applySMNext(which string) string {
 }
 
 func (s *sys) applySMAction(args []string) string {
-	if !s.sm.entered || s.m == nil {
+	if s.eng != nil || !s.sm.entered || s.m == nil {
 		return "n/a:not-entered"
 	}
 	w := s.w
